@@ -185,6 +185,9 @@ def normalize_noop_clamps(events, env, m1):
                 for lo, hi, keep_lo in ((a, b, x[2][0]), (b, a, x[2][1])):
                     known = any(len(g) == 3 and g[0] in ("lt", "le") and m1.canon(unref(g[1])) == lo and m1.canon(unref(g[2])) == hi
                                 for g in list(p.facts) + [h for v in p.payload_facts.values() for h in v])
+                    if not known and lo[0] == "call" and lo[1] in ("max", "min"):
+                        # a bound on a compound value (`max(min(x, L), b) <= L` from `b <= L`): asked of the prover
+                        known = p.le(lo, hi)
                     if known:
                         return keep_lo if x[1] == "min" else (x[2][1] if keep_lo is x[2][0] else x[2][0])
             return None
@@ -260,7 +263,9 @@ class Unit:
         for b in self.bodies:
             for e in env.flat_events(b, self_adt, world):
                 self.events.append(e)
-        self.events = normalize_views(normalize_range_chunks(normalize_accesses(self.events), env), m1)
+        self.events = normalize_range_chunks(normalize_accesses(self.events), env)
+        self.events = normalize_noop_clamps(self.events, env, m1)
+        self.events = normalize_views(self.events, m1)
         self.events = normalize_noop_clamps(self.events, env, m1)
         self.label = "%s|%s" % (world["name"], kind)
 
